@@ -320,7 +320,7 @@ struct Forker {
 	int errfd;
 	unsigned cpu_s, wall_s;
 	std::function<void()> prologue;      // executed in the child before every case (coin source / clock reset)
-	Forker() : errfd(-1), cpu_s(10), wall_s(90)
+	Forker() : errfd(-1), cpu_s(15), wall_s(120)
 	{
 		char path[] = "/tmp/c12-err-XXXXXX";
 		errfd = mkstemp(path);
@@ -1046,7 +1046,7 @@ struct Runner {
 		if (T.heavy && heavy_mode == "thin") T.stride = std::max(T.stride, heavy_stride);
 		if ((!T.heavy || heavy_mode != "thin") && global_stride > 1 && T.seed.size() >= stride_min_fields) T.stride = std::max(T.stride, global_stride);
 		if (T.heavy) batch_cases_now = 16; else batch_cases_now = batch_cases;
-		F.cpu_s = (T.heavy && C12_ASAN) ? 40 : 10;
+		F.cpu_s = (T.heavy && C12_ASAN) ? 40 : 15;
 		// the seed itself (sanity: a valid export / transcript must be accepted, else the harness is wrong)
 		std::string cid0 = T.name + "/" + T.seedname + "/seed";
 		bool my_seed = R.args.only.empty() ? (fnv(cid0) % R.args.nshards) == R.args.shard : R.args.only == cid0;
